@@ -511,7 +511,8 @@ def collect_of(block, var):
 
 def dict_loops(block, d=None, top_only: bool = False):
     """the loops over the entries of a mapping: [(loop, key, value)] -- ``for k in d`` (value ``d[k]``; this is also the
-    normal form of ``for k, v in d.items()`` when the loop leaves d alone) and the unconverted ``for k, v in d.items()``.
+    normal form of ``for k, v in d.items()`` when the loop leaves d alone), the unconverted ``for k, v in d.items()`` and
+    ``for v in d.values()`` (key None; also the normal form of a key loop that uses the key only to read its entry).
     With ``d`` None every mapping qualifies and the entry has a 4th item, the mapping."""
     from framelint.canon import atoms_of
     lps = [st for st in block if isinstance(st, tuple) and st[:1] == ("for",) and len(st) == 5] if top_only else \
@@ -523,6 +524,11 @@ def dict_loops(block, d=None, top_only: bool = False):
                 and isinstance(var, tuple) and var[:1] == ("tuple",) and len(var[1]) == 2:
             if d is None or it[1][1] == d:
                 out.append((lp, var[1][0], var[1][1]) + ((it[1][1],) if d is None else ()))
+        elif isinstance(it, tuple) and it[:1] == ("c",) and isinstance(it[1], tuple) and it[1][:1] == ("a",) and it[1][2] == "values" and not it[2] \
+                and isinstance(var, tuple) and var[:1] == ("v",):
+            # the normal form of a loop whose key is used for nothing but reading its entry: no key
+            if d is None or it[1][1] == d:
+                out.append((lp, None, var) + ((it[1][1],) if d is None else ()))
         elif isinstance(var, tuple) and var[:1] == ("v",):
             if d is not None and it == d:
                 out.append((lp, var, ("s", d, var)))
